@@ -272,12 +272,19 @@ def coq_peer(peer):
 WORKER = {"sync": "WSync", "gthread": "WThread", "async": "WAsync"}
 
 
-def _inet_ok(fam, s):
+def _inet(fam, s):
+    """'ok' / 'err' (OSError) / 'crash' (any other exception) of the real socket.inet_pton."""
     try:
         socket.inet_pton(fam, s)
-        return True
-    except (OSError, ValueError, UnicodeError):
-        return False
+        return "ok"
+    except OSError:
+        return "err"
+    except Exception:
+        return "crash"
+
+
+def _inet_ok(fam, s):
+    return _inet(fam, s) == "ok"
 
 
 def netloc_rejected(netloc):
@@ -292,21 +299,26 @@ def netloc_rejected(netloc):
 def world_tables(data):
     """The finite tables standing for socket.inet_pton and urlsplit's netloc validation on the strings
     that occur in this connection."""
-    ok4, ok6, bad = [], [], []
+    ok4, ok6, crash, bad = [], [], [], []
     for line in data.split(b"\r\n"):
         toks = line.split(b" ")
         if line.startswith(b"PROXY"):
             for t in toks[2:4]:
                 s = t.decode("latin-1")
-                if _inet_ok(socket.AF_INET, s) and t not in ok4:
+                r4, r6 = _inet(socket.AF_INET, s), _inet(socket.AF_INET6, s)
+                if r4 == "ok" and t not in ok4:
                     ok4.append(t)
-                if _inet_ok(socket.AF_INET6, s) and t not in ok6:
+                if r6 == "ok" and t not in ok6:
                     ok6.append(t)
+                if "crash" in (r4, r6) and t not in crash:
+                    if r4 != r6:
+                        raise RuntimeError("inet_pton raises a non-OSError for one family only: %r" % t)
+                    crash.append(t)
         if len(toks) >= 2:
             for cand in netloc_candidates(toks[1]):
                 if cand and cand not in bad and netloc_rejected(cand.decode("latin-1")):
                     bad.append(cand)
-    return ok4, ok6, bad
+    return ok4, ok6, crash, bad
 
 
 def netloc_candidates(target):
@@ -325,8 +337,8 @@ def netloc_candidates(target):
 
 
 def model_expr(kind, cfgd, peer, data, cfg_name=None):
-    ok4, ok6, bad = world_tables(data)
-    return "conn_obs %s %s %s %s %s %s %s%%N" % (coq_strs(ok4), coq_strs(ok6), coq_strs(bad), cfg_name or coq_cfg(cfgd),
+    ok4, ok6, crash, bad = world_tables(data)
+    return "conn_obs %s %s %s %s %s %s %s %s%%N" % (coq_strs(ok4), coq_strs(ok6), coq_strs(crash), coq_strs(bad), cfg_name or coq_cfg(cfgd),
                                                  WORKER[kind], coq_peer(peer), B(data))
 
 
